@@ -14,6 +14,18 @@ CLAIMED = {
          "Exploration: every accepted honest transcript generated as for C01 is perturbed at a generated position - claimed value + delta, a point z' chosen so that the perturbed statement is false, a commitment to q != p - in single check and batch_check of all 8 trait schemes, KZG10::{check,batch_check}, MultilinearPC::check and streaming verify/verify_multi_points; acceptance (Ok(true)) is a violation. Sensitivity confirmed by re-introducing the Hyrax 'values ignored' defect (caught within the quick tier).",
          "Perturbed statements are false by construction; for the code-based schemes a moved point is only asserted when the chance acceptance probability computed from the harness's own encoded matrix is <= 2^-40 (toy sizes have a non-negligible soundness error of their own).",
          "DESIGN.md §4 C02"),
+ "C03": ("property-based testing (proptest): adversarial-proof catalogue as generated mutation programs, foreign prover, replays, reshaped batch lists, adaptive prover emulation",
+         "Exploration of the attack catalogue: every case is an accepted honest transcript plus a generated attack - a program of 1-3 scheme-specific proof mutations (through mirror structs for the crate-private linear-code proof types), the library prover run on (q, state_q) against commitment(p), a proof replayed from another point or polynomial, a reshaped batch proof list, or (code-based schemes) an emulated adaptive prover that recomputes authentic columns/paths for attacker-chosen opened vectors - always with a false claimed value; acceptance is a violation. Sensitivity confirmed against the reverted fixes F2-F6 and the sub-agent change seeded/C03 (all caught in the quick tier).",
+         "Covers the catalogue and programs over it, not arbitrary adversaries. Vector mutations of the code-based schemes that keep honest columns are only asserted when the scheme's own chance-acceptance probability agreement^t is <= 2^-40.",
+         "DESIGN.md §4 C03"),
+ "C04": ("property-based testing (proptest): admission grid around each bound, mislabelled bounds, degree-bound part surgery",
+         "Exploration over generated keys (enforced sets unsorted/duplicated/absent) for Marlin, Sonic and IPA: commit/open must refuse exactly the inadmissible (degree, bound) pairs and serve the admissible boundary ones; a commitment made under d' and presented under d, or whose degree-bound part is dropped/swapped/replaced, must not verify (honest proof and relabelled library prover).",
+         "Points are admissible by construction for the point-identity schemes (p(z) != 0; IPA additionally z != 0, z^(d-d') != 1); enforced sets stay within the documented trim domain.",
+         "DESIGN.md §4 C04"),
+ "C05": ("property-based testing (proptest): differential batch_check vs threaded single checks vs ground truth, with cancelling and challenge-weighted error vectors and proof-list permutations",
+         "Exploration: for generated multi-label batches the batch decision must (a) not depend on the verifier RNG seed, (b) equal the AND of the scheme's own per-label checks on one threaded sponge, (c) equal the ground truth (all claims true and honest proof list). Error vectors include plain cancelling pairs inside a label and across labels and challenge-weighted cancellation across labels sharing a point value (challenges replayed by the harness).",
+         "Verifier randomness and batching challenges are honest randomness; weighted cancellation inside one label is accepted by design (the caller must bind values into the sponge) and is not generated.",
+         "DESIGN.md §4 C05"),
 }
 
 NOT_YET = "check not built yet in this round (planned, see DESIGN.md §4)"
